@@ -4,34 +4,36 @@
 # node ids, empty-not-null strings, trailing bytes in bodies).  TLC proves the contract decoder/encoder pair
 # re-encodes everything it decodes; the deviation demo (unknown extension object body dropped) must be caught;
 # every stream is replayed in a child process: ua.Decode, ua.Encode of the result, ua.Decode again.
+import codec_common as cc
 import vf
 
 
 def body(run):
-    exe = [None]
-    jobs = [
+    q = run.quick()
+    exe = run.go_build("codec")
+    files = cc.schema_files(run, exe)
+    res = run.parallel(
         lambda: run.tlc("Codec", "Codec", "Codec_streams_gen.cfg", mode="gen", timeout=3000,
                         label="contract InvReencode + rows: canonical and non-canonical streams"),
         lambda: run.tlc("Codec", "Codec", "Codec_dev_xobj.cfg", expect="violation", count=False,
                         label="deviation demo: dropping the body of an unknown ExtensionObject violates InvReencode"),
-        lambda: exe.__setitem__(0, run.go_build("codec")),
-    ]
-    res = run.parallel(*jobs)
+        lambda: cc.value_rows(run, count=False),
+        lambda: cc.struct_rows(run, files, not q, count=False))
     rows = res[0].rows
     if res[0].distinct != len(rows):
         raise vf.Inconclusive("streams: %d states but %d rows" % (res[0].distinct, len(rows)))
-    # structure-aware streams for every registered type: encodings of the C01 recipe values (harness-made rows)
-    extra = run.go_run(exe[0], ["-mode", "c03gen", "-n", str(run.pick(2, 8))], cases=[])
-    xrows = [r["case"] for r in extra if r.get("status") == "ok" and r.get("class") == "gen"]
-    run.log("TLC: %d states; %d model rows + %d registered-type streams" % (run.cov["states"], len(rows), len(xrows)))
-    results = run.go_run(exe[0], ["-mode", "c03"], cases=rows + xrows, timeout=2400)
+    # streams for every built-in value and every registered structure: the canonical encoding (TLC's tokens)
+    # and non-canonical variants with one bit flipped in one of the positions the model marks as masks
+    xrows = cc.derive(run, exe, "c03derive", res[2].rows + res[3].rows, run.pick(1, 4))
+    run.log("TLC: %d states; %d model rows + %d derived streams" % (run.cov["states"], len(rows), len(xrows)))
+    results = run.go_run(exe, ["-mode", "c03"], cases=rows + xrows, timeout=3000)
     if len(results) != len(rows) + len(xrows):
         raise vf.Inconclusive("harness returned %d results for %d rows" % (len(results), len(rows) + len(xrows)))
     run.absorb(results)
     run.cov["rows_model"] = len(rows)
-    run.cov["rows_registered_types"] = len(xrows)
-    run.cov["rule"] = ("one case per TLC state (target type x stream, canonical or not, decodes or not) plus seeded and "
-                       "mutated encodings of every registered structure; class = type x canonical x decodes")
+    run.cov["rows_derived"] = len(xrows)
+    run.cov["rule"] = ("one case per TLC state (target type x stream, canonical or not, decodes or not) plus the canonical encoding and "
+                       "mask-bit variants of every built-in value and every registered structure x recipe; class = type x canonical x decodes")
     run.assumptions += [
         "equality of the two decodes is up to the documented normalisations (NaN payloads, nil vs empty)",
         "a stream whose first decode fails or panics is outside C03 (C02 decides it)",
